@@ -179,6 +179,16 @@ CHECKS = {
          "strategy none. Short-read corrector: all subsets of <=3/5 out of 17 short-read introns (around the constants 4/25/50) x 5 exon lists.",
          "Trusted: BED parser; tolerance for moved sites = max(delta, 60) or membership in an assigned isoform.",
          "DESIGN.md §3 C14"),
+ "C11": ("exploration",
+         "bounded-exhaustive enumeration of base scenarios (C01 lattice annotations with all single-deviation reads; noise-free MIX scenarios) x transformations (shifts k in {1,7,255,256,257,1000}, reflection); metamorphic equality of two complete pipeline runs after the inverse transform",
+         "For every (scenario, transformation) the pipeline is run on the base input and on the transformed input (k bases inserted at every "
+         "chromosome start, or genome reverse-complemented with annotation and alignments mirrored); read assignments (type, isoform and gene "
+         "set, strand, event names), corrected BED, gene/transcript count tables and, for noise-free scenarios, transcript models (strand + exon "
+         "chain) and their counts must be equal after mapping coordinates/strands back. The base always contains an alignment starting at base 1 "
+         "of a chromosome.",
+         "Trusted: coordinate/strand inverse transforms and event-name normalisation in props/c11.py. Loci stay below the splitting thresholds. "
+         "One known finding (polyT head 2 bases outside the alignment).",
+         "DESIGN.md §3 C11"),
 }
 
 NOT_YET = {}
